@@ -45,11 +45,11 @@ type modelOption struct {
 }
 
 type modelBuilder struct {
-	pkg, name string
-	forObj    string
-	constants map[string]string // field → canon(value)
+	pkg, name  string
+	forObj     string
+	constants  map[string]string // field → canon(value)
 	constOrder []string
-	options   []modelOption
+	options    []modelOption
 }
 
 func modelBuilders(schemas ast.Schemas) []modelBuilder {
